@@ -31,6 +31,8 @@ import (
 	"strconv"
 	"strings"
 
+	mstats "github.com/aclements/go-moremath/stats"
+	"golang.org/x/perf/benchmath"
 	"golang.org/x/perf/benchstat"
 	"golang.org/x/perf/internal/stats"
 	"golang.org/x/perf/internal/verifh/hx"
@@ -152,6 +154,51 @@ func bitsList(xs []float64) string {
 // patterns (enc=bits), which the driver orders exactly.
 func runMWbits(f1, f2 []float64, lim, limT int, alt string, tags string) {
 	runMWf(f1, f2, fmt.Sprintf("enc=bits x1=%s x2=%s", bitsList(f1), bitsList(f2)), lim, limT, alt, tags)
+}
+
+// runBM drives the comparison benchstat (v2) actually prints: benchmath.AssumeNothing.Compare, in both
+// orders of the two samples.
+//
+//	case <id> kind=bm x1=<ints> x2=<ints> scale=<k> lim=<moremath limits> tag=…
+//	info <id> p=<bits> pswap=<bits>
+//	obs/sobs <id> res=ok|!equal p=<12 decimals> pswap=<12 decimals>
+func runBM(x1, x2 []int, scale int, tags string) {
+	id, ok := mine()
+	if !ok {
+		return
+	}
+	hx.Printf("case %d kind=bm x1=%s x2=%s scale=%d lim=%d,%d tag=%s\n", id, ints(x1), ints(x2), scale,
+		mstats.MannWhitneyExactLimit, mstats.MannWhitneyTiesExactLimit, tags)
+	defer func() {
+		if r := recover(); r != nil {
+			hx.Printf("crash %d panic:%s\n", id, hx.HexS(fmt.Sprint(r)))
+		}
+	}()
+	th := benchmath.DefaultThresholds
+	cmp := func(a, b []int) (benchmath.Comparison, string) {
+		s1 := benchmath.NewSample(floats(a, scale), &th)
+		s2 := benchmath.NewSample(floats(b, scale), &th)
+		c := benchmath.AssumeNothing.Compare(s1, s2)
+		res := "ok"
+		for _, w := range c.Warnings {
+			if w == mstats.ErrSamplesEqual {
+				res = "!equal"
+			} else if w == mstats.ErrSampleSize {
+				res = "!size"
+			}
+		}
+		return c, res
+	}
+	c12, r12 := cmp(x1, x2)
+	c21, r21 := cmp(x2, x1)
+	res := r12
+	if r21 != r12 {
+		res = r12 + "/" + r21
+	}
+	hx.Printf("info %d p=%s pswap=%s\n", id, hx.F64(c12.P), hx.F64(c21.P))
+	line := fmt.Sprintf("res=%s n=%d,%d p=%s pswap=%s", res, c12.N1, c12.N2, dec(c12.P), dec(c21.P))
+	hx.Printf("obs %d %s\n", id, line)
+	hx.Printf("sobs %d %s\n", id, line)
 }
 
 // layoutHook, when set, supplies the actual argument slices (and the buffer they live in).
@@ -427,6 +474,10 @@ func corpus() {
 	for _, c := range w {
 		mwAuto(c[0], c[1], 1, defLim, defLimT, "corpus")
 	}
+	// whole U with ties (breaker C11-Q) through benchmath
+	for _, c := range [][2][]int{{{1}, {0, 0}}, {{2}, {0, 0, 1}}, {{1}, {0, 1, 1}}, {{5, 5, 7}, {5, 5, 6, 9}}, {{1, 2}, {2}}} {
+		runBM(c[0], c[1], 1, tagOf(tieVec(c[0], c[1]), len(c[0]), len(c[1]), defLim, defLimT, "benchmath", "corpus"))
+	}
 	runDist(2, 2, []int{3, 1}, "corpus+exact-tied-K2")
 	runDist(4, 3, []int{3, 2, 2}, "corpus+exact-tied-Kge3")
 	// extra cases from corpus/C11/*.txt: lines "x1 | x2" of comma separated integers
@@ -572,6 +623,48 @@ func main() {
 		for _, x2 := range multis {
 			mwAuto(x1, x2, 1, defLim, defLimT, "abc")
 		}
+	}
+
+	// 3b. benchmath.AssumeNothing.Compare (what cmd/benchstat prints): every pair of multisets over a
+	//     3-letter alphabet with sizes up to mb x mb (unequal sizes, ties inside one sample, whole and
+	//     half-integral U), plus random pairs over 4 letters, sizes 1..6
+	mb := 5
+	if thorough {
+		mb = 6
+	}
+	var bmMultis [][]int
+	for n := 1; n <= mb; n++ {
+		for a := 0; a <= n; a++ {
+			for b := 0; a+b <= n; b++ {
+				var x []int
+				for i := 0; i < a; i++ {
+					x = append(x, 0)
+				}
+				for i := 0; i < b; i++ {
+					x = append(x, 1)
+				}
+				for i := 0; i < n-a-b; i++ {
+					x = append(x, 2)
+				}
+				bmMultis = append(bmMultis, x)
+			}
+		}
+	}
+	for _, x1 := range bmMultis {
+		for _, x2 := range bmMultis {
+			runBM(x1, x2, 1, tagOf(tieVec(x1, x2), len(x1), len(x2), defLim, defLimT, "benchmath"))
+		}
+	}
+	for i, n := 0, hx.N(500, 5000); i < n; i++ {
+		n1, n2 := 1+rng.Intn(6), 1+rng.Intn(6)
+		x1, x2 := make([]int, n1), make([]int, n2)
+		for j := range x1 {
+			x1[j] = rng.Intn(4)
+		}
+		for j := range x2 {
+			x2[j] = rng.Intn(4)
+		}
+		runBM(x1, x2, 1<<uint(rng.Intn(3)), tagOf(tieVec(x1, x2), n1, n2, defLim, defLimT, "benchmath"))
 	}
 
 	// 4. lowered limits: both branches and the switch between them at small sizes
